@@ -1185,6 +1185,11 @@ func (c *Ctx) probes() {
 	same("c11:paren-primary", "redundant parentheses around a primary change the tree", "a.b", "(a).b")
 	same("c11:paren-primary", "redundant parentheses around a primary change the tree", "f(a)[0]", "((f((a))))[(0)]")
 	same("c11:paren-primary", "redundant parentheses around a primary change the tree", "a?.b?.c", "(a?.b)?.c")
+	// a parenthesised map key is a full expression that merely STARTS with a parenthesis
+	same("c11:paren-map-key", "a map key starting with a parenthesis is not parsed as a full expression", "{(a ? b : c): d}", "{(a) ? b : c: d}")
+	same("c11:paren-map-key", "a map key starting with a parenthesis is not parsed as a full expression", "{(a ?: b): c}", "{(a) ?: b: c}")
+	same("c11:paren-map-key", "a map key starting with a parenthesis is not parsed as a full expression", "{(a + 1): 2}", "{(a) + 1: 2}")
+	same("c11:paren-map-key", "a map key starting with a parenthesis is not parsed as a full expression", "{(a.b not in c): 2}", "{(a).b not in c: 2}")
 	same("c11:whitespace", "whitespace changes the tree", "a?.b", " a ?. b ")
 	same("c11:whitespace", "whitespace changes the tree", "a ? b : c", "a\n?\tb\r\n:c")
 	same("c11:whitespace", "whitespace changes the tree", "a not in b", "a  not   in b")
